@@ -673,6 +673,8 @@ impl World for SegWorld {
             let (lo, hi) = (self.cfg.seg_lo, self.cfg.seg_hi);
             let t = self.now;
             let soon = t.saturating_add(2).min(self.tmax);
+            // once more at the time of the last query: nothing that was live then may be missing
+            self.gen.pending.push_back(Op::SQuery { a: lo, b: hi, take: -1 });
             self.gen.pending.push_back(Op::SIns { a: hi, b: hi, exp: self.tmax });
             self.gen.pending.push_back(Op::SIns { a: lo, b: lo, exp: soon });
             self.gen.pending.push_back(Op::SIns { a: lo, b: hi, exp: soon });
